@@ -573,13 +573,19 @@ def op_sweep(t):
     for it, h in zip(items, here):
         if len(h) == 3 and h[0] != h[1]:
             viol.append("d:guid-depends-on-insertion-order:%s:%s:%d" % it[:3])
-    env = dict(os.environ)
-    env["PYTHONPATH"] = ROOT + os.pathsep + REPO
-    for hs in hashseeds.split(","):
+    base_env = dict(os.environ)
+    base_env["PYTHONPATH"] = ROOT + os.pathsep + REPO
+
+    def run_one(hs):
+        env = dict(base_env)
         env["PYTHONHASHSEED"] = hs
-        p = subprocess.run([sys.executable, "-m", "harness.impl_serial", "--sweep-worker"], cwd=ROOT, env=env,
-                           input=json.dumps(items), stdout=subprocess.PIPE, stderr=subprocess.PIPE, text=True,
-                           timeout=1800)
+        return hs, subprocess.run([sys.executable, "-m", "harness.impl_serial", "--sweep-worker"], cwd=ROOT, env=env,
+                                  input=json.dumps(items), stdout=subprocess.PIPE, stderr=subprocess.PIPE, text=True,
+                                  timeout=1800)
+    from concurrent.futures import ThreadPoolExecutor
+    with ThreadPoolExecutor(max_workers=8) as ex:
+        results = list(ex.map(run_one, hashseeds.split(",")))
+    for hs, p in results:
         if p.returncode != 0:
             return "err! SweepWorker " + enc_str(p.stderr[-300:])
         there = json.loads(p.stdout.strip().splitlines()[-1])
